@@ -91,7 +91,9 @@ def run(tier):
         evs = common.run_driver(base.script(), "plain")
         fe = [e for e in evs if e["op"] == "fetch"]
         if not fe:
-            raise Broken("baseline fetch did not run for family %s" % tag)
+            # the one-call run did not get as far as a request on this tree: nothing of this family can be judged here
+            # (a procedure that cannot complete is C04's business)
+            ck.notes.append("family skipped, the baseline did not reach a request: %s" % tag); continue
         bl = fe[cutr].get("bodylen", 0) if len(fe) > cutr else 0
         base_events = [e for e in evs if e.get("case") == base.cid]
         parts = [("1-byte", "", 1)]
